@@ -109,10 +109,11 @@ class Obj:
 
 
 class Cell:
-    __slots__ = ("v",)
+    __slots__ = ("v", "view")
 
-    def __init__(self, v):
+    def __init__(self, v, view=None):
         self.v = v
+        self.view = view        # (cell of the iterated array, loop index): the value is the NumPy *view* base[k] handed out by iteration
 
 
 class Func:
@@ -945,6 +946,11 @@ class Interp:
             v = share.v if share is not None else self.ev(st.value, env, scope)
             for t in st.targets:
                 self.assign(t, v, env, scope, share)
+                if share is None and isinstance(t, ast.Name) and is_term(v) and isinstance(st.value, ast.Subscript):
+                    ix = self.index_value(st.value.slice, env, scope)
+                    basic = lambda i: isinstance(i, (Poly, SliceV)) or i is None
+                    if basic(ix) or (isinstance(ix, Tup) and all(basic(i) for i in ix)):
+                        env[t.id].view = ("opaque", None)      # basic indexing: a NumPy view, stores into it would change the indexed array
             return
         if isinstance(st, ast.AugAssign):
             cur = self.ev(st.target, env, scope)
@@ -987,9 +993,23 @@ class Interp:
             raise Unsupported(f"attribute store on a non-object: {ast.dump(t)[:80]} -> {o!r}")
         if isinstance(t, ast.Subscript):
             cell = self.cell_of(t.value, env, scope)
+            idx = self.index_value(t.slice, env, scope)
+            if getattr(cell, "view", None) is not None:
+                base, kk = cell.view
+                if not isinstance(base, Cell):
+                    raise Unsupported("store through a view of an array that is not a plain variable")
+                if self.param_cells and id(base) in self.param_cells[-1]:
+                    raise Unsupported("in-place update of an array argument inside a helper")
+                if not (self.loops and atom(self.loops[-1].var) == kk):
+                    raise Unsupported("store through a view outside the loop that handed it out")
+                full = Tup((kk,) + (tuple(idx) if isinstance(idx, Tup) else (idx,)))
+                base.v = self.store(base.v, full, v)
+                return
             if self.param_cells and id(cell) in self.param_cells[-1]:
                 raise Unsupported("in-place update of an array argument inside a helper")
-            idx = self.index_value(t.slice, env, scope)
+            if is_term(cell.v) and cell.v[0] in ("elem", "index", "T", "ravel", "reshape"):
+                # basic indexing / reshaping returns a NumPy view: the store would change the array it was taken from
+                raise Unsupported("store into a view of another array")
             cell.v = self.store(cell.v, idx, v)
             return
         raise Unsupported("assignment target")
@@ -1011,19 +1031,8 @@ class Interp:
         depth = len(self.loops)
         kname = f"k{depth}"
         k = atom(kname)
-        if isinstance(it, tuple) and not isinstance(it, Tup) and it and it[0] == "enumerate()":
-            X = it[1]
-            if not is_term(X):
-                raise Unsupported("enumerate of a non-array")
-            itdesc = ("range", length(X))
-            val = Tup((k, self._elem_of_iterable(X, k)))
-        elif isinstance(it, tuple) and not isinstance(it, Tup) and it and it[0] == "range()":
-            itdesc = ("range", it[1])
-            val = k
-        elif is_term(it):
-            itdesc = ("range", length(it))
-            val = self._elem_of_iterable(it, k)
-        elif isinstance(it, Tup):
+        views = None
+        if isinstance(it, Tup):
             # literal tuple: unrolled
             for x in it:
                 self.assign(st.target, x, env, scope, None)
@@ -1032,7 +1041,7 @@ class Interp:
                     raise Unsupported("control flow in an unrolled loop")
             return
         else:
-            raise Unsupported("iteration over a value that is not an array")
+            itdesc, val, views = self._iteration(it, st.iter, env, scope, kname)
         lc = LoopCtx(kname, itdesc, depth)
         # loop-carried scalars: assigned in the body and live before the loop
         assigned = set()
@@ -1052,6 +1061,14 @@ class Interp:
                 lc.carried_init[n] = env[n].v
                 env[n] = Cell(("carried", n))
         self.assign(st.target, val, env, scope, None)
+        # iterating over an array hands out views of its blocks: a store into the loop target is a store into block k of the array
+        if views is not None:
+            if isinstance(views, (Cell, str)) and isinstance(st.target, ast.Name):
+                env[st.target.id].view = (views, k)
+            elif isinstance(views, tuple) and isinstance(st.target, (ast.Tuple, ast.List)) and len(st.target.elts) == len(views):
+                for t_, c_ in zip(st.target.elts, views):
+                    if isinstance(c_, (Cell, str)) and isinstance(t_, ast.Name):
+                        env[t_.id].view = (c_, k)
         self.loops.append(lc)
         CUR_DEPTH[0] = len(self.loops)
         try:
@@ -1163,10 +1180,87 @@ class Interp:
             elif is_term(cell.v) and cell.v[0] == "listpend" and cell.v[1] == lc.var:
                 _, _var, base, items = cell.v
                 if len(base) == 0 and len(items) == 1:
-                    cell.v = ("listtab", lc.it, items[0])
+                    item = self._close_running_offsets(items[0], lc)
+                    cell.v = ("listtab", lc.it, item, lc.var) if item is not None else \
+                        unknown("list items that depend on a loop-carried value")
                 else:
                     cell.v = unknown("list built by several appends per iteration")
         return env
+
+    def _close_running_offsets(self, item, lc):
+        """an item appended in every iteration may mention the loop-carried offset `b` (b = 0 before the loop, b += w(k) in the body) only as
+        the slice b : b + w(k); that slice is then named by the closed atom prefix[w] = sum_{j<k} w(j)"""
+        pres = {pre: (n, init) for n, (pre, init) in lc.pre.items()}
+
+        def mentions(p):
+            return isinstance(p, Poly) and any(a in pres or "pre[" in a for a in p.atoms())
+        if isinstance(item, SliceV):
+            if item.step is not None or not isinstance(item.lo, Poly) or not isinstance(item.hi, Poly):
+                return None
+            for pre, (n, init) in pres.items():
+                inc = lc.inc.get(n)
+                if inc is not None and item.lo == atom(pre) and item.hi - item.lo == inc and init == P(0) and not mentions(inc):
+                    lo = atom(f"prefix[{lc.var}]({inc!r})")
+                    return SliceV(lo, lo + inc)
+            return None if mentions(item.lo) or mentions(item.hi) else item
+        if isinstance(item, Poly):
+            return None if mentions(item) else item
+        if is_term(item) or isinstance(item, (Tup, tuple)):
+            return None if "pre[" in repr(item) else item
+        return item
+
+    def listcomp(self, e, env, scope):
+        if len(e.generators) != 1 or e.generators[0].ifs or e.generators[0].is_async:
+            raise Unsupported("comprehension with several generators or a filter")
+        g = e.generators[0]
+        it = self.ev(g.iter, env, scope)
+        depth = len(self.loops)
+        kname = f"k{depth}"
+        itdesc, val, _views = self._iteration(it, g.iter, env, scope, kname)
+        inner = dict(env)
+        self.assign(g.target, val, inner, scope, None)
+        lc = LoopCtx(kname, itdesc, depth)
+        self.loops.append(lc)
+        CUR_DEPTH[0] = len(self.loops)
+        try:
+            v = self.ev(e.elt, inner, scope)
+        finally:
+            self.loops.pop()
+            CUR_DEPTH[0] = len(self.loops)
+        return ("listtab", itdesc, v, kname)
+
+    def _iteration(self, it, node, env, scope, kname):
+        """(iteration domain, value of the loop target in iteration k, cells the target components are views of)"""
+        k = atom(kname)
+
+        def one(X, xnode):
+            if is_term(X) and X[0] == "listtab":
+                if len(X) > 3 and X[3] != kname:
+                    raise Unsupported("list built at another loop depth")
+                return ("range", iter_len(X[1])), X[2], None
+            if is_term(X):
+                cell = None
+                if xnode is not None:
+                    try:
+                        cell = self.cell_of(xnode, env, scope)
+                    except Unsupported:
+                        cell = None
+                return ("range", length(X)), self._elem_of_iterable(X, k), (cell if cell is not None else "opaque")
+            raise Unsupported("iteration over a value that is not an array")
+        if isinstance(it, tuple) and not isinstance(it, Tup) and it and it[0] == "enumerate()":
+            xn = node.args[0] if isinstance(node, ast.Call) and node.args else None
+            d, v, c = one(it[1], xn)
+            return d, Tup((k, v)), (None, c)
+        if isinstance(it, tuple) and not isinstance(it, Tup) and it and it[0] == "zip()":
+            parts = [one(X, (node.args[i] if isinstance(node, ast.Call) and len(node.args) == len(it[1]) else None)) for i, X in enumerate(it[1])]
+            d0 = parts[0][0]
+            if any(p_[0] != d0 for p_ in parts[1:]):
+                raise Unsupported("zip of iterables whose lengths are not provably equal")
+            return d0, Tup(p_[1] for p_ in parts), tuple(p_[2] for p_ in parts)
+        if isinstance(it, tuple) and not isinstance(it, Tup) and it and it[0] == "range()":
+            return ("range", it[1]), k, None
+        d, v, c = one(it, node)
+        return d, v, c
 
     def _finalize_pend(self, t, lc):
         _, var, base, stores = t
@@ -1204,6 +1298,23 @@ class Interp:
                             return ("misfit", f"each iteration fills a slice of width {show(inc)} with {show(length(v))} values", v)
                         return unknown("slice filled with a non-vector")
                     total = sum_over(lc.it, inc, lc.var)
+                    if base[0] == "const" and len(base[2]) == 1 and base[2][0] == total:
+                        return ("cat", lc.it, v, total)
+                    if base[0] == "const" and len(base[2]) == 1:
+                        return ("misfit", f"an array of length {show(base[2][0])} is filled with {show(total)} entries in all", v)
+                    return unknown("slices written into an array that is not freshly allocated")
+            s, v = stores[0]
+            if isinstance(s.lo, Poly) and isinstance(s.hi, Poly):
+                w = s.hi - s.lo
+                if s.lo == atom(f"prefix[{lc.var}]({w!r})"):
+                    # the slice comes from a list of consecutive ranges built beforehand (offset 0, widths w(k)): same concatenation
+                    if not is_term(v):
+                        return unknown("scalar written to a slice")
+                    if rank(v) != 1 or not (length(v) == w):
+                        if rank(v) == 1:
+                            return ("misfit", f"each iteration fills a slice of width {show(w)} with {show(length(v))} values", v)
+                        return unknown("slice filled with a non-vector")
+                    total = sum_over(lc.it, w, lc.var)
                     if base[0] == "const" and len(base[2]) == 1 and base[2][0] == total:
                         return ("cat", lc.it, v, total)
                     if base[0] == "const" and len(base[2]) == 1:
@@ -1457,6 +1568,8 @@ class Interp:
         if isinstance(e, ast.Lambda):
             s = self.repo.scope_of(e)
             return Func(s)
+        if isinstance(e, ast.ListComp):
+            return self.listcomp(e, env, scope)
         raise Unsupported(f"expression {type(e).__name__}")
 
     def global_value(self, e, scope):
@@ -1498,6 +1611,11 @@ class Interp:
                 return o.attrs[a].v
             for c in o.cls.children:
                 if c.kind == "function" and c.name == a:
+                    decos = [(dotted(d) or "").split(".")[-1] for d in c.node.decorator_list]
+                    if "staticmethod" in decos:
+                        return Func(c)
+                    if decos:
+                        raise Unsupported(f"decorated method {a}")
                     return Func(c, bound=o)
             return unknown(f"attribute {a} read before it is set")
         if isinstance(o, Ext):
@@ -1544,8 +1662,42 @@ class Interp:
         if isinstance(f, Ext):
             return self.ext(f, args, kw)
         if isinstance(f, ClassVal):
-            raise Unsupported("class instantiation")
+            return self.instantiate(f.scope, args, kw)
         return unknown(f"call of {show(f)[:60] if is_term(f) else type(f).__name__}")
+
+    def instantiate(self, cls, args, kw):
+        """a library class called as a constructor: a NamedTuple record (fields in declaration order) or a plain class whose
+        `__init__` is interpreted on a fresh object"""
+        node = cls.node
+        bases = [dotted(b) or "" for b in getattr(node, "bases", [])]
+        if any(b.split(".")[-1] == "NamedTuple" for b in bases):
+            fields = [st.target.id for st in node.body if isinstance(st, ast.AnnAssign) and isinstance(st.target, ast.Name)]
+            defaults = {st.target.id: st.value for st in node.body if isinstance(st, ast.AnnAssign) and isinstance(st.target, ast.Name)
+                        and st.value is not None}
+            if len(args) > len(fields) or any(k not in fields for k in kw):
+                raise Unsupported("record construction with these arguments")
+            o = Obj(cls, name=cls.name)
+            for k, v in list(zip(fields, args)) + list(kw.items()):
+                if k in o.attrs:
+                    raise Unsupported("record field given twice")
+                o.attrs[k] = Cell(v)
+            for k in fields:
+                if k not in o.attrs:
+                    if k not in defaults:
+                        raise Unsupported("record field without a value")
+                    o.attrs[k] = Cell(self.ev(defaults[k], {}, cls))
+            o.record = tuple(fields)
+            return o
+        if bases and not all(b in ("object",) for b in bases):
+            raise Unsupported("instantiation of a class with base classes")
+        init = next((c for c in cls.children if c.kind == "function" and c.name == "__init__"), None)
+        o = Obj(cls, name=cls.name)
+        if init is None:
+            if args or kw:
+                raise Unsupported("constructor arguments without __init__")
+            return o
+        self.call_scope(init, args, kw, bound=o)
+        return o
 
     def method(self, o, name, args, kw):
         if isinstance(o, Poly):
@@ -1589,6 +1741,17 @@ class Interp:
                     known = known * d
             if sum(1 for d in dims if pconst(d) == -1) == 1 and len(dims) == 1:
                 return ravel(o)
+            # one -1 between a prefix and a suffix that are dimensions of the operand: the -1 is the product of the dimensions in between
+            so = shape(o)
+            if sum(1 for d in dims if pconst(d) == -1) == 1 and isinstance(so, tuple):
+                j = next(i for i, d in enumerate(dims) if pconst(d) == -1)
+                pre, suf = dims[:j], dims[j + 1:]
+                if len(pre) + len(suf) <= len(so) and all(a == b for a, b in zip(pre, so)) \
+                        and all(a == b for a, b in zip(suf, so[len(so) - len(suf):] if suf else ())):
+                    mid = P(1)
+                    for d in so[len(pre):len(so) - len(suf)]:
+                        mid = mid * d
+                    return reshape(o, pre + [mid] + suf)
             return unknown("reshape with -1")
         return reshape(o, dims)
 
@@ -1665,6 +1828,8 @@ class Interp:
             return outer_and(ravel(args[0]), ravel(args[1]))
         if n == "sum" and args and is_term(args[0]) and args[0][0] == "tab" and isinstance(args[0][2], Poly) and not kw:
             return sum_over(args[0][1], args[0][2], f"k{CUR_DEPTH[0]}")
+        if n == "sum" and len(args) == 1 and is_term(args[0]) and args[0][0] == "listtab" and isinstance(args[0][2], Poly) and not kw:
+            return sum_over(args[0][1], args[0][2], args[0][3] if len(args[0]) > 3 else f"k{CUR_DEPTH[0]}")
         if n in ("sum", "count_nonzero") and args:
             a = args[0]
             if is_term(a) and dtype(a) == "bool" and not {"axis"} & set(kw):
@@ -1691,6 +1856,13 @@ class Interp:
                 return length(a)
         if n == "enumerate" and args:
             return ("enumerate()", args[0])
+        if n == "zip" and len(args) >= 2 and not kw:
+            return ("zip()", tuple(args))
+        if n == "slice" and len(args) in (2, 3) and not kw:
+            vals = [None if a is None else as_poly(a) for a in args]
+            if any(a is not None and p_ is None for a, p_ in zip(args, vals)):
+                return unknown("slice with non-integer bounds")
+            return SliceV(*vals)
         if n == "range" and len(args) == 1 and as_poly(args[0]) is not None:
             return ("range()", as_poly(args[0]))
         if n == "tile" and len(args) + len(kw) == 2:
@@ -1711,9 +1883,9 @@ class Interp:
                     return tab(u[1], transpose(rowsrep(v, as_poly(shp[2]))))
             return unknown("broadcast_to with this shape")
         if n in ("concatenate", "hstack") and args and is_term(args[0]) and args[0][0] == "listtab" and not kw:
-            _, it, v = args[0]
+            _, it, v = args[0][:3]
             if is_term(v) and rank(v) == 1:
-                var = f"k{len(self.loops)}"
+                var = args[0][3] if len(args[0]) > 3 else f"k{len(self.loops)}"
                 return ("cat", it, v, sum_over(it, length(v), var))
             return unknown("concatenation of non-vectors")
         if n in ("ravel",) and args:
